@@ -6,6 +6,7 @@ import Driver.CodecDriver
 import Driver.QNameDriver
 import Driver.VersionDriver
 import Driver.VCacheDriver
+import Driver.PartitionDriver
 open Driver
 
 def main (args : List String) : IO UInt32 := do
@@ -19,5 +20,6 @@ def main (args : List String) : IO UInt32 := do
   | ["qname"] => loop QNameDriver.stepLine stdin stdout ([] : Memento.QName.CodeBase); return 0
   | ["version"] => loop VersionDriver.stepLine stdin stdout ({} : VersionDriver.St); return 0
   | ["vcache"] => loop VCacheDriver.stepLine stdin stdout ({} : Memento.VersionCache.St); return 0
+  | ["partition"] => loop PartitionDriver.stepLine stdin stdout (none : Option Memento.Partition.Part); return 0
   | ["store"] => loop StoreDriver.stepLine stdin stdout StoreDriver.St.none; return 0
   | _ => IO.eprintln "usage: mmodel <model>"; return 2
